@@ -2,7 +2,7 @@
 # tools_confirm.sh <seed-id> <property> <mutant-dir> — confirm a sub-agent's change in the scratch worktree /tmp/wt_confirm
 # (builds, full ctest) and, when it passes, copy it to /verif/seeded/<seed-id>/. Never touches /repo.
 set -u
-sid=$1; prop=$2; src=$3; wt=/tmp/wt_confirm
+sid=$1; prop=$2; src=$3; wt=${WT:-/tmp/wt_confirm}
 cd $wt || exit 2
 git checkout -q -- . ; git clean -qfd src test 2>/dev/null
 if ! git apply --check "$src/patch.diff" 2>/dev/null; then echo "$sid: patch does not apply"; exit 1; fi
@@ -25,7 +25,7 @@ import json, sys, os
 sid, prop, files, summary = sys.argv[1:5]
 p = '/verif/seeded/%s/meta.json' % sid
 m = json.load(open(p)) if os.path.exists(p) else {}
-m.update(dict(id=sid, property=prop, origin='written by a sub-agent that saw only the property text and a scratch worktree', files_changed=files.split(), repo_suite_with_change=summary, confirmed_in='/tmp/wt_confirm (scratch worktree, removed afterwards)'))
+m.update(dict(id=sid, property=prop, origin='written by a sub-agent that saw only the property text and a scratch worktree', files_changed=files.split(), repo_suite_with_change=summary, confirmed_in='scratch worktree under /tmp (removed afterwards)'))
 json.dump(m, open(p, 'w'), indent=1)
 PY
 exit 0
